@@ -49,39 +49,22 @@ theorem scanQ_snoc (q : UInt8) (raw : Bytes) (c : UInt8) :
 
 /-! ### LocIn -/
 
-theorem LocIn.mono {t d l lo hi lo' hi'} (h : LocIn t d l lo hi) (h1 : lo' ≤ lo) (h2 : hi ≤ hi') :
-    LocIn t d l lo' hi' := by
-  rcases h with ⟨i, j, a, b, s⟩ | h
-  · exact Or.inl ⟨i, j, by omega, by omega, s⟩
-  · exact Or.inr h
+theorem LocIn.mono {t l lo hi lo' hi'} (h : LocIn t l lo hi) (h1 : lo' ≤ lo) (h2 : hi ≤ hi') :
+    LocIn t l lo' hi' := by
+  obtain ⟨i, j, a, b, s⟩ := h
+  exact ⟨i, j, by omega, by omega, s⟩
 
-theorem LocIn.ofSpan {t d l i j} (s : Span t l i j) : LocIn t d l i j :=
-  Or.inl ⟨i, j, Nat.le_refl _, Nat.le_refl _, s⟩
+theorem LocIn.ofSpan {t l i j} (s : Span t l i j) : LocIn t l i j :=
+  ⟨i, j, Nat.le_refl _, Nat.le_refl _, s⟩
 
-theorem primLoc_ext_self : primLoc.ext primLoc = primLoc := by decide
-
-theorem LocIn.ext {t d a b lo hi} (ha : LocIn t d a lo hi) (hb : LocIn t d b lo hi) :
-    LocIn t d (a.ext b) lo hi := by
-  rcases ha with ⟨i, j, h1, h2, sa⟩ | ⟨hd, ha⟩
-  · rcases hb with ⟨i', j', h1', h2', sb⟩ | ⟨_, hb⟩
-    · rcases span_ext sa sb with ⟨_, s⟩ | ⟨_, e⟩ | ⟨_, s⟩
-      · exact Or.inl ⟨i, j', h1, h2', s⟩
-      · rw [e]; exact Or.inl ⟨i, j, h1, h2, sa⟩
-      · exact Or.inl ⟨i', j, h1', h2, s⟩
-    · subst hb
-      have : a.ext primLoc = a := by
-        unfold Srcloc.ext
-        rw [if_neg]
-        rw [sa.1]; decide
-      rw [this]; exact Or.inl ⟨i, j, h1, h2, sa⟩
-  · subst ha
-    right
-    refine ⟨hd, ?_⟩
-    rcases hb with ⟨i', j', _, _, sb⟩ | ⟨_, hb⟩
-    · unfold Srcloc.ext
-      rw [if_neg]
-      rw [sb.1]; decide
-    · subst hb; exact primLoc_ext_self
+theorem LocIn.ext {t a b lo hi} (ha : LocIn t a lo hi) (hb : LocIn t b lo hi) :
+    LocIn t (a.ext b) lo hi := by
+  obtain ⟨i, j, h1, h2, sa⟩ := ha
+  obtain ⟨i', j', h1', h2', sb⟩ := hb
+  rcases span_ext sa sb with ⟨_, s⟩ | ⟨_, e⟩ | ⟨_, s⟩
+  · exact ⟨i, j', h1, h2', s⟩
+  · rw [e]; exact ⟨i, j, h1, h2, sa⟩
+  · exact ⟨i', j, h1', h2, s⟩
 
 /-! ### Good -/
 
@@ -93,7 +76,7 @@ theorem _root_.ReaderSpec.Good.mono {t d x lo hi lo' hi'} (h : Good t d false x 
   | quoted a b s hq hs hb => exact .quoted (by omega) (by omega) s hq hs hb
   | unit a b s hs => exact .unit (by omega) (by omega) s hs
   | list a b c o cl g => exact .list (by omega) b (by omega) o cl g
-  | hashPrim hd a b c e hh hp => exact .hashPrim hd (by omega) b (by omega) e hh hp
+  | hashPrim a b s hh hp => exact .hashPrim (by omega) (by omega) s hh hp
   | hashLone hd a b s hh => exact .hashLone hd (by omega) (by omega) s hh
 
 theorem makePlain_loc (l : Srcloc) (w : Bytes) : (makePlain l w).loc = l := by
@@ -106,12 +89,12 @@ theorem makePlain_loc (l : Srcloc) (w : Bytes) : (makePlain l w).loc = l := by
 
 /-- the location of a well-located tree lies in its window. -/
 theorem _root_.ReaderSpec.Good.locIn {t d m x lo hi} (h : Good t d m x lo hi) :
-    LocIn t d x.loc lo (if m then hi + 1 else hi) := by
+    LocIn t x.loc lo (if m then hi + 1 else hi) := by
   induction h with
-  | word a b s _ => rw [makePlain_loc]; exact Or.inl ⟨_, _, a, b, s⟩
-  | hashWord a b s _ _ => exact Or.inl ⟨_, _, Nat.le_of_lt a, b, s⟩
-  | quoted a b s _ _ _ => exact Or.inl ⟨_, _, a, b, s⟩
-  | unit a b s _ => exact Or.inl ⟨_, _, a, b, s⟩
+  | word a b s _ => rw [makePlain_loc]; exact ⟨_, _, a, b, s⟩
+  | hashWord a b s _ _ => exact ⟨_, _, Nat.le_of_lt a, b, s⟩
+  | quoted a b s _ _ _ => exact ⟨_, _, a, b, s⟩
+  | unit a b s _ => exact ⟨_, _, a, b, s⟩
   | list a b c _ _ _ ih =>
     simp only [reduceIte] at ih
     exact LocIn.mono ih a (Nat.succ_le_of_lt c)
@@ -120,13 +103,13 @@ theorem _root_.ReaderSpec.Good.locIn {t d m x lo hi} (h : Good t d m x lo hi) :
     exact LocIn.mono ih (Nat.le_succ _) (Nat.le_succ _)
   | gcons hl _ _ _ _ => exact hl
   | gnil hl => exact hl
-  | hashPrim hd _ _ _ _ _ _ => exact Or.inr ⟨hd, rfl⟩
-  | hashLone _ a b s _ => exact Or.inl ⟨_, _, Nat.le_of_lt a, Nat.succ_le_of_lt b, s⟩
+  | hashPrim a b s _ _ => exact ⟨_, _, Nat.le_of_lt a, b, s⟩
+  | hashLone _ a b s _ => exact ⟨_, _, Nat.le_of_lt a, Nat.succ_le_of_lt b, s⟩
 
-theorem _root_.ReaderSpec.Good.locIn_true {t d x b c} (h : Good t d true x b c) : LocIn t d x.loc b (c+1) := by
+theorem _root_.ReaderSpec.Good.locIn_true {t d x b c} (h : Good t d true x b c) : LocIn t x.loc b (c+1) := by
   simpa using h.locIn
 
-theorem _root_.ReaderSpec.Good.locIn_false {t d x lo hi} (h : Good t d false x lo hi) : LocIn t d x.loc lo hi := by
+theorem _root_.ReaderSpec.Good.locIn_false {t d x lo hi} (h : Good t d false x lo hi) : LocIn t x.loc lo hi := by
   simpa using h.locIn
 
 def Items (t : Bytes) (d : Bool) (content : List LRich) (lo hi : Nat) : Prop :=
@@ -154,11 +137,11 @@ theorem enlistOnto_good {t d tl b c} (htl : Good t d true tl b c) :
     makeCons_good (.inner (h x List.mem_cons_self))
       (enlistOnto_good htl r (fun y hy => h y (List.mem_cons_of_mem _ hy)))
 
-theorem enlist_good {t d l b c items} (hl : LocIn t d l b (c+1)) (h : Items t d items (b+1) c) :
+theorem enlist_good {t d l b c items} (hl : LocIn t l b (c+1)) (h : Items t d items (b+1) c) :
     Good t d true (enlist l items) b c :=
   enlistOnto_good (.gnil hl) items h
 
-theorem restructure_good {t d l b c} (hl : LocIn t d l b (c+1)) :
+theorem restructure_good {t d l b c} (hl : LocIn t l b (c+1)) :
     ∀ fuel items, Items t d items (b+1) c → Good t d true (restructure fuel items l) b c := by
   intro fuel
   induction fuel with
@@ -178,7 +161,7 @@ theorem restructure_good {t d l b c} (hl : LocIn t d l b (c+1)) :
       exact makeCons_good (ih _ (fun z hz => h z (List.mem_of_mem_take hz)))
         (ih _ (fun z hz => h z (List.mem_of_mem_drop hz)))
 
-theorem closeList_good {t d l b c items st} (hl : LocIn t d l b (c+1))
+theorem closeList_good {t d l b c items st} (hl : LocIn t l b (c+1))
     (h : Items t d items (b+1) c) : Good t d true (closeList l items st) b c := by
   unfold closeList
   split
@@ -268,7 +251,7 @@ theorem bareword_good {t l w lo n} (hn : n ≤ t.length) (h : Inv t (.bareword l
     rw [← hc]
     split
     · rename_i v hv
-      exact .hashPrim rfl hlo hin (Nat.le_refl _) hn hp hv
+      exact .hashPrim hlo (Nat.le_refl _) s hp hv
     · rename_i hv
       exact .hashWord hlo (Nat.le_refl _) s hp hv
 
@@ -507,7 +490,7 @@ theorem step_post (t : Bytes) {n : Nat} (hn : n < t.length) :
       cases st
       · simpa using hst
       · simp only [if_true] at hst ⊢; exact ⟨hst.1, hst.2.1, by omega⟩
-    have hl : LocIn t true l b (n+1) := LocIn.mono (LocIn.ofSpan s) (Nat.le_refl _) (Nat.le_succ _)
+    have hl : LocIn t l b (n+1) := LocIn.mono (LocIn.ofSpan s) (Nat.le_refl _) (Nat.le_succ _)
     have hit' := hit.mono (Nat.le_refl _) (Nat.le_succ n)
     rw [step]
     split
@@ -723,23 +706,16 @@ theorem parse_post (t : Bytes) :
 
 /-! ### from the defect-admitting judgement to the strict one -/
 
-theorem clean_cons {l : Srcloc} {a e : LRich} (h : Clean (.cons l a e)) :
-    l.file = inputFile ∧ Clean a ∧ Clean e := by
+theorem clean_cons {l : Srcloc} {a e : LRich} (h : Clean (.cons l a e)) : Clean a ∧ Clean e := by
   unfold Clean at *
   simp only [LRich.nodes] at h
-  refine ⟨(h _ List.mem_cons_self).1, ?_, ?_⟩
+  refine ⟨?_, ?_⟩
   · intro y hy; exact h y (List.mem_cons_of_mem _ (List.mem_append_left _ hy))
   · intro y hy; exact h y (List.mem_cons_of_mem _ (List.mem_append_right _ hy))
 
-theorem clean_self {x : LRich} (h : Clean x) : x.loc.file = inputFile ∧ x.erase ≠ .atom [35] := by
+theorem clean_self {x : LRich} (h : Clean x) : x.erase ≠ .atom [35] := by
   apply h
   cases x <;> simp [LRich.nodes]
-
-theorem LocIn.strict {t l lo hi} (h : LocIn t true l lo hi) (hf : l.file = inputFile) :
-    LocIn t false l lo hi := by
-  rcases h with h | ⟨_, h⟩
-  · exact Or.inl h
-  · subst h; exact absurd hf (by decide)
 
 theorem _root_.ReaderSpec.Good.strict {t m x lo hi} (h : Good t true m x lo hi) : Clean x → Good t false m x lo hi := by
   induction h with
@@ -751,14 +727,11 @@ theorem _root_.ReaderSpec.Good.strict {t m x lo hi} (h : Good t true m x lo hi) 
   | inner _ ih => intro hc; exact .inner (ih hc)
   | gcons hl _ _ iha ihe =>
     intro hc
-    obtain ⟨hf, ca, ce⟩ := clean_cons hc
-    exact .gcons (LocIn.strict hl hf) (iha ca) (ihe ce)
-  | gnil hl => intro hc; exact .gnil (LocIn.strict hl (clean_self hc).1)
-  | hashPrim _ _ _ _ _ _ _ =>
-    intro hc
-    have := (clean_self hc).1
-    exact absurd this (by show ¬ primLoc.file = inputFile; decide)
-  | hashLone _ _ _ _ _ => intro hc; exact absurd rfl (clean_self hc).2
+    obtain ⟨ca, ce⟩ := clean_cons hc
+    exact .gcons hl (iha ca) (ihe ce)
+  | gnil hl => intro _; exact .gnil hl
+  | hashPrim a b s hh hp => intro _; exact .hashPrim a b s hh hp
+  | hashLone _ _ _ _ _ => intro hc; exact absurd rfl (clean_self hc)
 
 /-! ### reading the clauses off the judgement -/
 
@@ -779,23 +752,23 @@ theorem makePlain_not_cons (l : Srcloc) (w : Bytes) : (makePlain l w).isCons = f
     · rfl
 
 /-- every node's location lies in the window of the judgement. -/
-theorem good_nodes_within {t m x lo hi} (h : Good t false m x lo hi) :
-    ∀ z ∈ x.nodes, LocIn t false z.loc lo (if m then hi + 1 else hi) := by
+theorem good_nodes_within {t d m x lo hi} (h : Good t d m x lo hi) :
+    ∀ z ∈ x.nodes, LocIn t z.loc lo (if m then hi + 1 else hi) := by
   induction h with
   | word a b s _ =>
     intro z hz
     rw [makePlain_nodes] at hz
     simp at hz; subst hz
-    rw [makePlain_loc]; exact Or.inl ⟨_, _, a, b, s⟩
+    rw [makePlain_loc]; exact ⟨_, _, a, b, s⟩
   | hashWord a b s _ _ =>
     intro z hz; simp [LRich.nodes] at hz; subst hz
-    exact Or.inl ⟨_, _, Nat.le_of_lt a, b, s⟩
+    exact ⟨_, _, Nat.le_of_lt a, b, s⟩
   | quoted a b s _ _ _ =>
     intro z hz; simp [LRich.nodes] at hz; subst hz
-    exact Or.inl ⟨_, _, a, b, s⟩
+    exact ⟨_, _, a, b, s⟩
   | unit a b s _ =>
     intro z hz; simp [LRich.nodes] at hz; subst hz
-    exact Or.inl ⟨_, _, a, b, s⟩
+    exact ⟨_, _, a, b, s⟩
   | list a b c _ _ _ ih =>
     intro z hz
     have := ih z hz
@@ -815,8 +788,12 @@ theorem good_nodes_within {t m x lo hi} (h : Good t false m x lo hi) :
     · exact ihe z hz
   | gnil hl =>
     intro z hz; simp [LRich.nodes] at hz; subst hz; exact hl
-  | hashPrim hd _ _ _ _ _ _ => cases hd
-  | hashLone hd _ _ _ _ => cases hd
+  | hashPrim a b s _ _ =>
+    intro z hz; simp [LRich.nodes] at hz; subst hz
+    exact ⟨_, _, Nat.le_of_lt a, b, s⟩
+  | hashLone _ a b s _ =>
+    intro z hz; simp [LRich.nodes] at hz; subst hz
+    exact ⟨_, _, Nat.le_of_lt a, Nat.succ_le_of_lt b, s⟩
 
 /-- leaf clause on reader coordinates -/
 def LeafOK (t : Bytes) (y : LRich) : Prop :=
@@ -825,31 +802,31 @@ def LeafOK (t : Bytes) (y : LRich) : Prop :=
 /-- list clause on reader coordinates -/
 def ListOK (t : Bytes) (y : LRich) : Prop :=
   (y.isCons = true ∨ y.isNil = true) ∧
-  ∃ b c, b < c ∧ opensAt t b ∧ t[c]? = some 41 ∧ ∀ z ∈ y.nodes, LocIn t false z.loc b (c+1)
+  ∃ b c, b < c ∧ opensAt t b ∧ t[c]? = some 41 ∧ ∀ z ∈ y.nodes, LocIn t z.loc b (c+1)
 
-theorem good_nodes {t m x lo hi} (h : Good t false m x lo hi) :
+theorem good_nodes_all {t d m x lo hi} (h : Good t d m x lo hi) :
     (m = true → lo < hi ∧ opensAt t lo ∧ t[hi]? = some 41) →
-    ∀ y ∈ x.nodes, LeafOK t y ∨ ListOK t y := by
+    ∀ y ∈ x.nodes, (LeafOK t y ∨ ListOK t y) ∨ (d = true ∧ y.erase = .atom [35]) := by
   induction h with
   | word a b s hh =>
     intro _ y hy
     rw [makePlain_nodes] at hy
     simp at hy; subst hy
-    left
+    left; left
     refine ⟨makePlain_not_cons _ _, _, _, by rw [makePlain_loc]; exact s, Or.inl ⟨hh, ?_⟩⟩
     rw [makePlain_loc]
   | hashWord a b s hh hp =>
     intro _ y hy; simp [LRich.nodes] at hy; subst hy
-    left
+    left; left
     exact ⟨rfl, _, _, s, Or.inr (Or.inl ⟨by omega, hh, hp, rfl⟩)⟩
   | quoted a b s hq hs hb =>
     intro _ y hy; simp [LRich.nodes] at hy; subst hy
-    left
-    exact ⟨rfl, _, _, s, Or.inr (Or.inr (Or.inl ⟨_, _, _, hq, hs, hb, rfl⟩))⟩
+    left; left
+    exact ⟨rfl, _, _, s, Or.inr (Or.inr (Or.inr (Or.inl ⟨_, _, _, hq, hs, hb, rfl⟩)))⟩
   | unit a b s hs =>
     intro _ y hy; simp [LRich.nodes] at hy; subst hy
-    left
-    exact ⟨rfl, _, _, s, Or.inr (Or.inr (Or.inr ⟨hs, rfl⟩))⟩
+    left; left
+    exact ⟨rfl, _, _, s, Or.inr (Or.inr (Or.inr (Or.inr ⟨hs, rfl⟩)))⟩
   | list a b c o cl _ ih => intro _; exact ih (fun _ => ⟨b, o, cl⟩)
   | inner _ ih => intro _; exact ih (fun h => by cases h)
   | @gcons l a e b c hl ga ge iha ihe =>
@@ -858,7 +835,7 @@ theorem good_nodes {t m x lo hi} (h : Good t false m x lo hi) :
     simp only [LRich.nodes, List.mem_cons, List.mem_append] at hy
     rcases hy with hy | hy | hy
     · subst hy
-      right
+      left; right
       refine ⟨Or.inl rfl, b, c, hf.1, hf.2.1, hf.2.2, ?_⟩
       have := good_nodes_within (Good.gcons hl ga ge)
       simpa using this
@@ -868,11 +845,33 @@ theorem good_nodes {t m x lo hi} (h : Good t false m x lo hi) :
     intro hm y hy
     have hf := hm rfl
     simp [LRich.nodes] at hy; subst hy
-    right
+    left; right
     refine ⟨Or.inr rfl, b, c, hf.1, hf.2.1, hf.2.2, ?_⟩
     intro z hz; simp [LRich.nodes] at hz; subst hz; exact hl
-  | hashPrim hd _ _ _ _ _ _ => cases hd
-  | hashLone hd _ _ _ _ => cases hd
+  | hashPrim a b s hh hp =>
+    intro _ y hy; simp [LRich.nodes] at hy; subst hy
+    left; left
+    exact ⟨rfl, _, _, s, Or.inr (Or.inr (Or.inl ⟨by omega, hh, _, hp, rfl⟩))⟩
+  | hashLone hd _ _ _ _ =>
+    intro _ y hy; simp [LRich.nodes] at hy; subst hy
+    exact Or.inr ⟨hd, rfl⟩
+
+theorem good_nodes {t m x lo hi} (h : Good t false m x lo hi)
+    (hm : m = true → lo < hi ∧ opensAt t lo ∧ t[hi]? = some 41) :
+    ∀ y ∈ x.nodes, LeafOK t y ∨ ListOK t y := by
+  intro y hy
+  rcases good_nodes_all h hm y hy with h | ⟨h, _⟩
+  · exact h
+  · cases h
+
+/-- list nodes and nil nodes are well located whatever the defect flag -/
+theorem good_nodes_list {t d m x lo hi} (h : Good t d m x lo hi)
+    (hm : m = true → lo < hi ∧ opensAt t lo ∧ t[hi]? = some 41) :
+    ∀ y ∈ x.nodes, (y.isCons = true ∨ y.isNil = true) → LeafOK t y ∨ ListOK t y := by
+  intro y hy hk
+  rcases good_nodes_all h hm y hy with h | ⟨_, h⟩
+  · exact h
+  · cases y <;> simp [LRich.erase, LRich.isCons, LRich.isNil] at h hk
 
 /-! ### from reader coordinates to byte offsets (tab-free texts) -/
 
@@ -883,10 +882,9 @@ theorem within_of_span {t : Bytes} (ht : TabFree t) {l : Srcloc} {i j lo hi : Na
   exact ⟨s.1, h1, s.2.1, h2⟩
 
 theorem within_of_locIn {t : Bytes} (ht : TabFree t) {l : Srcloc} {lo hi : Nat}
-    (h : LocIn t false l lo hi) : Within t l lo hi := by
-  rcases h with ⟨i, j, h1, h2, s⟩ | ⟨hd, _⟩
-  · exact within_of_span ht s h1 h2
-  · cases hd
+    (h : LocIn t l lo hi) : Within t l lo hi := by
+  obtain ⟨i, j, h1, h2, s⟩ := h
+  exact within_of_span ht s h1 h2
 
 theorem leafExact_of_ok {t : Bytes} (ht : TabFree t) {y : LRich} (h : LeafOK t y) : LeafExact t y := by
   obtain ⟨_, i, j, s, tk⟩ := h
